@@ -40,6 +40,8 @@ class Prop(PropBase):
                         continue
                     l = self.L[t]
                     cfg = scen.rand_cfg(rng, dense=rng.randrange(2), wait=rng.randrange(2), pktcb=0)
+                    if l.mech and r % 2 == 1:
+                        cfg.from_file = 1; cfg.wait = 0      # calibration 'from file': DIFOP packets still carry identity and status
                     s = scen.Scn(f'c18_{build}_{t}_{r}')
                     s.add(f'B 0 {1 if build == "parse" else 0}')
                     s.drv(0, l, cfg)
@@ -55,14 +57,14 @@ class Prop(PropBase):
                             # jumbo: trailing sub packets with a wrong identifier (rejected) carry other temperatures than the accepted ones
                             bad = tuple(range(rng.randrange(30, 63), 63)) if (l.jumbo and rng.random() < 0.7) else ()
                             return scen.mems_msop(rng, l, st['seq'], bad_subs=bad)
-                    sn = [rng.randrange(256) for _ in range(6)]
-                    for k in range(rng.choice([3, 5])):
-                        ev = 'difop' if k == 1 else rng.choice(['msop', 'msop', 'difop', 'bad', 'msop'])      # every scenario sees a DIFOP packet
+                    for k in range(rng.choice([4, 5])):
+                        ev = 'difop' if k in (1, 3) else rng.choice(['msop', 'msop', 'difop', 'bad', 'msop'])      # every scenario sees two DIFOP packets with different contents
+                        sn = [rng.randrange(256) for _ in range(6)]
                         if ev == 'msop':
                             s.pkt(0, mk())
                         elif ev == 'difop':
                             kd, vert, horiz, raw = scen.cali_table(rng, l, 'valid') if l.mech else (None, None, None, None)
-                            d = bytearray(l.difop(dual=dual, vert=vert, horiz=horiz, raw_cali=raw, rng=rng if (not l.mech and rng.random() < 0.8) else None, sn=sn))
+                            d = bytearray(l.difop(dual=dual, vert=vert, horiz=horiz, raw_cali=raw, rng=rng if rng.random() < 0.8 else None, sn=sn))
                             s.pkt(0, bytes(d))
                         else:
                             kind, bad = scen.malformed(rng, l, mk(), l.difop())
